@@ -203,6 +203,22 @@ def k1_probes():
            "inputs": [M.enc_inputs({"uid": "u1", "x": 2})]}
 
 
+def own_fixed_programs():
+    """literals at the edge of what Python can hold (a decimal too large for a double, an integer of 4300 digits, -0.0): whatever
+    the evaluator makes of them - a group or an error - the generated module must make the same"""
+    I, S = M.ident, M.lit_str
+    huge = M.lit_float("1" + "0" * 320 + ".0")
+    tiny = M.lit_float("0." + "0" * 400 + "1")
+    big = M.lit_int("7" * 4300)
+    R = M.ret([(S("a"), "1"), (S("b"), "1")])
+    envs = [M.enc_inputs({"uid": "u%d" % j, "x": v}) for j, v in enumerate([0, 1.5, float("inf"), float("nan"), 10 ** 400, "s", None])]
+    for body in (M.if_([(M.cmp_(I("x"), "<", huge), R)], M.ret([(S("c"), "1")])), M.if_([(M.cmp_(huge, "==", I("x")), R)], None),
+                 M.ret([(huge, "1"), (S("z"), "1")]), M.ret([(S("a"), "1" + "0" * 320 + ".0"), (S("b"), "1")]),
+                 M.if_([(M.cmp_(I("x"), "in", M.tup([huge, M.lit_float("0.0", True), tiny])), R)], M.ret([(M.lit_float("0.0", True), "1")])),
+                 M.if_([(M.cmp_(I("x"), ">=", big), R)], M.ret([(big, "1")])), M.ret([(tiny, "0." + "0" * 400 + "1"), (S("b"), "0")])):
+        yield {"prog": M.program("exp", body, salt="s", splitters=["uid"]), "inputs": envs}
+
+
 def run(ctx, rec):
     if ctx.shard == 0:
         still = []
@@ -221,6 +237,9 @@ def run(ctx, rec):
         from . import c07
 
         runner.direct_run(ctx, rec, "fixed-shapes", c07.fixed_programs(), judge, known_filter=known_filter)
+        if rec.violations:
+            return
+        runner.direct_run(ctx, rec, "edge-literals", own_fixed_programs(), judge, known_filter=known_filter)
         if rec.violations:
             return
     if ctx.shard == 0:
